@@ -22,10 +22,15 @@ import (
 	"verif/engine/symgo"
 )
 
-const (
-	repoDir = "/repo"
-	modPath = "github.com/spikeekips/mitum"
-)
+const modPath = "github.com/spikeekips/mitum"
+
+// repoDir is /repo; VERIF_REPO overrides it (background sweeps over a snapshot of /repo, seeded copies).
+var repoDir = func() string {
+	if d := os.Getenv("VERIF_REPO"); d != "" {
+		return d
+	}
+	return "/repo"
+}()
 
 // verifDir is /verif; VERIF_DIR overrides it for development copies.
 var verifDir = func() string {
